@@ -195,6 +195,31 @@ fn test(c: &Case, st: &mut Stats) -> TestResult {
             }
         }
     }
+    // 32-bit bursts that set a whole word to a value with a special meaning somewhere in the
+    // computation (zero, all ones, the XOR constant "STUN" and its relatives): the CRC value itself,
+    // the attribute header before it, and sampled words of the message
+    {
+        let mut words: Vec<usize> = vec![fp_start + 4, fp_start, 0, 4, 8, 16];
+        for _ in 0..4 {
+            words.push(((next() % (n as u64 / 4)) * 4) as usize);
+        }
+        for w in words {
+            if w + 4 > n {
+                continue;
+            }
+            let orig = [m[w], m[w + 1], m[w + 2], m[w + 3]];
+            for magic in gen::FP_MAGIC {
+                let v = magic.to_be_bytes();
+                if v == orig {
+                    continue;
+                }
+                m[w..w + 4].copy_from_slice(&v);
+                let r = judge(n, &m, &|| format!("the 4 bytes at offset {} set to {:08x}", w, magic), &mut cn, st, w < 4);
+                m[w..w + 4].copy_from_slice(&orig);
+                r?;
+            }
+        }
+    }
     // single-byte substitutions: all 255 for every byte of small messages, sampled otherwise
     if n <= 64 {
         for i in 0..n {
